@@ -13,16 +13,7 @@ from .liveness import spawn_pred, manager_only
 from .shutdown import pid_branch_func, _is_weakref_deref, _enclosing
 
 
-def inline_locals(e, func, expr, depth=5):
-    """Copy of expr with single-definition locals replaced by their value."""
-    class T(ast.NodeTransformer):
-        def visit_Name(self, n):
-            if isinstance(n.ctx, ast.Load) and depth > 0 and n.id in func.locals and n.id not in func.all_params():
-                defs = [d for d in e.local_defs(func, n.id) if not (isinstance(d, ast.Constant) and d.value is None)]
-                if len(defs) == 1:
-                    return inline_locals(e, func, defs[0], depth - 1)
-            return n
-    return T().visit(copy.deepcopy(expr))
+from .util import inline_locals  # noqa: E402
 
 
 # ---------------------------------------------------------------------------
@@ -258,8 +249,8 @@ def r_spawn_locked(e, R):
         R.check(ok, "R-SPAWN-LOCKED", f"{cf.short}: spawn routine called under the processes management lock", cf.short, norm(c),
                 "workers are spawned without the processes management lock: an idle worker can time out concurrently "
                 "and the table/size bookkeeping races", e.loc(cf, c))
-    if n < 3:
-        raise AnalysisError(f"R-SPAWN-LOCKED: {n} callers of the spawn routine (floor 3)")
+    if n < 2:
+        raise AnalysisError(f"R-SPAWN-LOCKED: {n} callers of the spawn routine (floor 2)")
 
 
 def r_spawn_site(e, R):
